@@ -450,7 +450,10 @@ def clean_summary(sc, o):
             1 if member(o["ip"], c["allow"]) else 0, 0, 1, 1 if buflen >= 4 else 0]
 
 
-def run_scenarios(c, scenarios, monitor, compare_c15_class, shard=250):
+def run_scenarios(c, scenarios, monitor, compare_c15_class, shard=250, preamble=None, checker=None, wrap_terms=None):
+    """preamble/checker/wrap_terms: a property may evaluate a richer run function than scenario_run on the same
+    scenarios (C22: also the decoder summary recomputed from the bytes); wrap_terms(sc, ops_out or None, (inp, out))
+    returns the terms for that function.  Defaults: Model.Server.scenario_run on the plain terms."""
     stats = {"scenarios": 0, "datagrams": 0, "panics": 0, "skipped_c15_class": 0,
              "parse": {"ok": 0, "decrypt_error": 0, "error": 0}, "answers": {}, "registrations": {},
              "with_cookie": 0, "non_client": 0, "denied_or_not_allowed": 0, "rate_limited": 0,
@@ -462,7 +465,8 @@ def run_scenarios(c, scenarios, monitor, compare_c15_class, shard=250):
         if ops is None:
             stats["panics"] += 1
             if len(sc["ops"]) == 1 and clean_request(sc["ops"][0]) and sc["cfg"]["cache"] == 0:
-                return panic_terms(sc, [clean_summary(sc, sc["ops"][0])])
+                t = panic_terms(sc, [clean_summary(sc, sc["ops"][0])])
+                return wrap_terms(sc, None, t) if wrap_terms else t
             return None
         for d in ops:
             stats["datagrams"] += 1
@@ -485,14 +489,15 @@ def run_scenarios(c, scenarios, monitor, compare_c15_class, shard=250):
         if not compare_c15_class and in_c15_class(sc, ops):
             stats["skipped_c15_class"] += 1
             return None
-        return model_terms(sc, ops)
+        t = model_terms(sc, ops)
+        return wrap_terms(sc, ops, t) if (wrap_terms and t is not None) else t
 
     def nontrivial(sc, out):
         ops = parse_ops(out)
         return ops is not None and any(d["parse"] != 2 for d in ops)
 
     outs = vplib.correspondence(
-        c, "ntp-proto", scenarios, line_of=line_of, coq_case_of=coq_case, preamble=PREAMBLE, checker=CHECKER,
+        c, "ntp-proto", scenarios, line_of=line_of, coq_case_of=coq_case, preamble=preamble or PREAMBLE, checker=checker or CHECKER,
         monitor=monitor, nontrivial=nontrivial,
         sample_of=lambda sc, out: {"input": line_of(sc)[:500], "implementation": " ".join(out)[:400]}, shard=shard)
     c.cov["distribution"] = stats
